@@ -165,6 +165,11 @@ fn budgets(tier: Tier, n: u64) -> Vec<Budget> {
 }
 
 fn explore(acc: &mut Acc, im: &mut Impl, tier: Tier, name: &str, text: &str, forms: &[Cell]) -> bool {
+    explore_with(acc, im, tier, name, text, forms, None)
+}
+
+/// `only`: the budget sequences to use instead of the tier's family.
+fn explore_with(acc: &mut Acc, im: &mut Impl, tier: Tier, name: &str, text: &str, forms: &[Cell], only: Option<Vec<Budget>>) -> bool {
     beat(text);
     // uninterrupted run
     verif::reset();
@@ -188,10 +193,11 @@ fn explore(acc: &mut Acc, im: &mut Impl, tier: Tier, name: &str, text: &str, for
     acc.evals += 1;
     acc.count("instructions_executed", n);
     let mut ok = true;
-    for b in budgets(tier, n) {
+    let all_gc = only.is_some();
+    for b in only.unwrap_or_else(|| budgets(tier, n)) {
         for gc in [false, true] {
             // forced collection at every slice end only for the constant budgets (cost)
-            if gc && !matches!(b, Budget::Const(_)) && tier == Tier::Quick {
+            if gc && !all_gc && !matches!(b, Budget::Const(_)) && tier == Tier::Quick {
                 continue;
             }
             let s = run_sliced(im, forms, &b, gc, n);
@@ -268,6 +274,19 @@ pub fn run(ctx: &Ctx) -> i32 {
     if std::env::var("MWMC_TIMES").is_ok() {
         eprintln!("templates done {:.1}s", ctx.start.elapsed().as_secs_f64());
     }
+    // long programs (heap growth): a few large budgets, each with and without a collection at every slice end
+    for (name, text) in c03::LONG_TEMPLATES {
+        let forms = parse_forms(text).unwrap();
+        let mut st = c03::St { im: None, used: 0 };
+        let im = c03::vm_for(&mut st);
+        let t0 = std::time::Instant::now();
+        explore_with(&mut acc, im, tier, &format!("template:{}", name), text, &forms, Some(vec![Budget::Const(257), Budget::Const(1000), Budget::Const(4099), Budget::Periodic(vec![8192, 1]), Budget::Periodic(vec![3, 5000])]));
+        if std::env::var("MWMC_TIMES").is_ok() {
+            eprintln!("long template {} {:.1}s", name, t0.elapsed().as_secs_f64());
+        }
+    }
+    // this thread only waits from here on: it has no case in progress for the watchdog to time
+    beat("");
     let chain_depth = 2u32;
     for d in 0..=chain_depth {
         let n = c01::chain_space(d);
@@ -306,7 +325,7 @@ pub fn run(ctx: &Ctx) -> i32 {
         eprintln!("chains done {:.1}s", ctx.start.elapsed().as_secs_f64());
     }
     let c5: Vec<String> = match tier {
-        Tier::Quick => c05::programs(1).into_iter().step_by(7).collect(),
+        Tier::Quick => c05::programs(1).into_iter().step_by(13).collect(),
         Tier::Thorough => c05::programs(2),
     };
     let a = par_fold(
